@@ -32,6 +32,7 @@ import SF.Proofs.JsonEncTop
 import SF.Proofs.JsonRefineTop
 import SF.Proofs.UbjChunkTop
 import SF.Proofs.FoldFaultTop
+import SF.Proofs.DecFaultTop
 namespace SF.Props.C16
 open SF SF.Cbor SF.Cbor.Enc
 
@@ -400,3 +401,93 @@ example :
     (impl { failAt := some 10 } T v).evs = (impl {} T v).evs := by decide +kernel
 
 end SF.PropsFold.C16
+
+
+/-! ## the pull decoders (proofs SF/Proofs/{Cbor,Json,Ubj}DecFault.lean, DecFaultTop.lean) — unconditional
+
+The decoder is created over a visitor that fails at its k-th event, counted over the WHOLE stream
+(across `Next` calls) — the configuration of the op `decf`.  A trace entry is (result of the call,
+events delivered in total so far); the trace ends with the first call that does not return `.ok`. -/
+
+namespace SF.PropsDec.C16
+
+/-- C16 for the CBOR reader-driven decoder: EVERY read script (empty reads anywhere), EVERY byte
+content, EVERY fault index k, every number of calls, every fuel: either the fault was never
+reached (no call returns the visitor's error, at most k events in total), or EXACTLY the last
+call of the trace returns THE VISITOR'S error and the failing event is the last one delivered -/
+theorem cbor_reader_decoder_returns_visitor_error (f : SF.Cbor.Dec.Dec → Nat) (k : Nat) (cs : List Bytes) (n : Nat) :
+    (∀ x ∈ SF.Cbor.DecR.nextsF f n { reads := cs, p := { failAt := some k } }, x.1 ≠ .err .visitor ∧ x.2.length ≤ k) ∨
+    (∃ pre evs, SF.Cbor.DecR.nextsF f n { reads := cs, p := { failAt := some k } } =
+        pre ++ [(SF.Cbor.Dec.NextRes.err .visitor, evs)] ∧
+      evs.length = k + 1 ∧ ∀ x ∈ pre, x.1 = .ok ∧ x.2.length ≤ k) :=
+  SF.Props.DecFault.Cbor.reader_decoder_returns_visitor_error f k cs n
+
+/-- … entry by entry: a call returns the visitor's error IFF k+1 events have been delivered in
+total, and never more than k+1 are: not swallowed, not replaced, nothing after it -/
+theorem cbor_reader_decoder_visitor_error_iff (f : SF.Cbor.Dec.Dec → Nat) (k : Nat) (cs : List Bytes) (n : Nat) :
+    ∀ x ∈ SF.Cbor.DecR.nextsF f n { reads := cs, p := { failAt := some k } },
+      (x.1 = .err .visitor ↔ x.2.length = k + 1) ∧ x.2.length ≤ k + 1 :=
+  SF.Props.DecFault.Cbor.reader_decoder_visitor_error_iff f k cs n
+
+/-- … the CBOR byte-slice decoder -/
+theorem cbor_bytes_decoder_visitor_error_iff (f : SF.Cbor.Dec.Dec → Nat) (k : Nat) (b : Bytes) (n : Nat) :
+    ∀ x ∈ SF.Cbor.DecR.nextsF f n { hasReader := false, buffer := b, p := { failAt := some k } },
+      (x.1 = .err .visitor ↔ x.2.length = k + 1) ∧ x.2.length ≤ k + 1 :=
+  SF.Props.DecFault.Cbor.bytes_decoder_visitor_error_iff f k b n
+
+/-- C16 for the JSON reader-driven decoder: EVERY read script, BOTH ways the end is signalled,
+EVERY buffer size, EVERY byte content, EVERY fault index -/
+theorem json_reader_decoder_returns_visitor_error (f : SF.Json.Dec.Dec → Nat) (k : Nat) (cs : List Bytes) (e : Bool)
+    (bs : Int) (n : Nat) :
+    (∀ x ∈ SF.Json.DecP.nextsF f n { SF.Json.Dec.newDecoder { chunks := cs, lastEOF := e } bs with p := SF.Json.Parse.init (some k) },
+      x.1 ≠ .err .visitor ∧ x.2.length ≤ k) ∨
+    (∃ pre evs, SF.Json.DecP.nextsF f n { SF.Json.Dec.newDecoder { chunks := cs, lastEOF := e } bs with p := SF.Json.Parse.init (some k) } =
+        pre ++ [(SF.Json.Dec.NextRes.err .visitor, evs)] ∧
+      evs.length = k + 1 ∧ ∀ x ∈ pre, x.1 = .ok ∧ x.2.length ≤ k) :=
+  SF.Props.DecFault.Json.reader_decoder_returns_visitor_error f k cs e bs n
+
+theorem json_reader_decoder_visitor_error_iff (f : SF.Json.Dec.Dec → Nat) (k : Nat) (cs : List Bytes) (e : Bool)
+    (bs : Int) (n : Nat) :
+    ∀ x ∈ SF.Json.DecP.nextsF f n { SF.Json.Dec.newDecoder { chunks := cs, lastEOF := e } bs with p := SF.Json.Parse.init (some k) },
+      (x.1 = .err .visitor ↔ x.2.length = k + 1) ∧ x.2.length ≤ k + 1 :=
+  SF.Props.DecFault.Json.reader_decoder_visitor_error_iff f k cs e bs n
+
+theorem json_bytes_decoder_visitor_error_iff (f : SF.Json.Dec.Dec → Nat) (k : Nat) (b : Bytes) (n : Nat) :
+    ∀ x ∈ SF.Json.DecP.nextsF f n { SF.Json.Dec.newBytesDecoder b with p := SF.Json.Parse.init (some k) },
+      (x.1 = .err .visitor ↔ x.2.length = k + 1) ∧ x.2.length ≤ k + 1 :=
+  SF.Props.DecFault.Json.bytes_decoder_visitor_error_iff f k b n
+
+/-- C16 for the UBJSON reader-driven decoder (no fuel proviso: a call that runs out of the mirror's
+fuel has delivered at most k events or returns the visitor's error) -/
+theorem ubj_reader_decoder_returns_visitor_error (f : SF.Ubjson.Dec.Dec → Nat) (k : Nat) (cs : List Bytes)
+    (lastEOF : Bool) (bufsize : Nat) (n : Nat) :
+    (∀ x ∈ SF.Ubjson.DecR.nextsF f n { SF.Ubjson.Dec.newDecoder cs lastEOF bufsize with p := SF.Ubjson.Parse.init (some k) },
+      x.1 ≠ .err .visitor ∧ x.2.length ≤ k) ∨
+    (∃ pre evs, SF.Ubjson.DecR.nextsF f n { SF.Ubjson.Dec.newDecoder cs lastEOF bufsize with p := SF.Ubjson.Parse.init (some k) } =
+        pre ++ [(SF.Ubjson.Dec.NextRes.err .visitor, evs)] ∧
+      evs.length = k + 1 ∧ ∀ x ∈ pre, x.1 = .ok ∧ x.2.length ≤ k) :=
+  SF.Props.DecFault.Ubj.reader_decoder_returns_visitor_error f k cs lastEOF bufsize n
+
+theorem ubj_reader_decoder_visitor_error_iff (f : SF.Ubjson.Dec.Dec → Nat) (k : Nat) (cs : List Bytes)
+    (lastEOF : Bool) (bufsize : Nat) (n : Nat) :
+    ∀ x ∈ SF.Ubjson.DecR.nextsF f n { SF.Ubjson.Dec.newDecoder cs lastEOF bufsize with p := SF.Ubjson.Parse.init (some k) },
+      (x.1 = .err .visitor ↔ x.2.length = k + 1) ∧ x.2.length ≤ k + 1 :=
+  SF.Props.DecFault.Ubj.reader_decoder_visitor_error_iff f k cs lastEOF bufsize n
+
+theorem ubj_bytes_decoder_visitor_error_iff (f : SF.Ubjson.Dec.Dec → Nat) (k : Nat) (b : Bytes) (n : Nat) :
+    ∀ x ∈ SF.Ubjson.DecR.nextsF f n { SF.Ubjson.Dec.newBytesDecoder b with p := SF.Ubjson.Parse.init (some k) },
+      (x.1 = .err .visitor ↔ x.2.length = k + 1) ∧ x.2.length ≤ k + 1 :=
+  SF.Props.DecFault.Ubj.bytes_decoder_visitor_error_iff f k b n
+
+/-- non-vacuity (CBOR): `[1, 2]` `[3, 4]` in four small reads (one empty), the visitor failing at
+its 6th event: one successful call, then the visitor's error after exactly 6 events; a fault index
+beyond the stream is never reached -/
+example :
+    SF.Cbor.DecR.nexts 3 { reads := [[0x82, 0x01], [0x02, 0x82], [], [0x03, 0x04]], p := { failAt := some 5 } } =
+      [(.ok, [.arrStart 2 BT.any, .num .u8 1, .num .u8 2, .arrEnd]),
+       (.err .visitor, [.arrStart 2 BT.any, .num .u8 1, .num .u8 2, .arrEnd, .arrStart 2 BT.any, .num .u8 3])] ∧
+    (SF.Cbor.DecR.nexts 3 { reads := [[0x82, 0x01], [0x02, 0x82], [], [0x03, 0x04]], p := { failAt := some 8 } }).map (·.1) =
+      [.ok, .ok, .eof] := by
+  decide +kernel
+
+end SF.PropsDec.C16
